@@ -340,6 +340,7 @@ func C10(ctx *core.Ctx) {
 		c10ResolvedFile(ctx, cc, "C10.R18")
 		globalNodeMutation(ctx, cc, "C10.R19")
 		c10IdentifierForms(ctx, cc)
+		c10SeenItemsAreSkipped(ctx, cc)
 	}
 	gs, err := peg.ParseSource(string(src))
 	if err != nil {
